@@ -200,7 +200,7 @@ func genBatch(c *vf.Ctx, u *universe, name string) []Case {
 		docs := validDocs(u, t, c, sz.docs)
 		k := 0
 		for di, doc := range docs {
-			jsonMutants(doc, !c.Quick(), func(in []byte, org string) {
+			jsonMutants(doc, !c.Quick(), di == 0, func(in []byte, org string) {
 				for _, val := range []bool{false, true} {
 					cs := mkCase("json", t.name, val, in, org)
 					cs.Org = fmt.Sprintf("%s #%d", org, di)
@@ -268,6 +268,19 @@ func runCase(c *vf.Ctx, r *runner, cs *Case, cal *calib, perFP map[string]int) {
 		c.Count("counted_element_decodes", o.iters)
 	}
 	c.Count("mutation:"+cs.kind(), 1)
+	for _, cl := range []string{"hexlen", "numstr", "hexform", "long"} {
+		if strings.Contains(cs.Org, "->"+cl+"-") {
+			c.Count(cl+"_mutants_tried", 1)
+			switch out {
+			case "accepted":
+				c.Count(cl+"_mutants_accepted", 1)
+			case "err":
+				c.Count(cl+"_mutants_rejected", 1)
+			default:
+				c.Count(cl+"_mutants_panicked", 1)
+			}
+		}
+	}
 	cls := out
 	if out == "err" {
 		cls = errClass(o.err)
@@ -489,7 +502,7 @@ func run(c *vf.Ctx) {
 		replay(c)
 		return
 	}
-	c.SetRule("each evaluation is one call of a decoder entry point (serix.Decode into one of ~55 registered destination types incl. ds.Set/SerializableOrderedMap.Decode; JSONDecode/MapDecode; 19 Deserializer primitives and chains of them; 10 stream Read* helpers; typeutils) on one input, in a GOMAXPROCS=1 child under ulimit -v, observed by recover, returned (n, err), MemStats.TotalAlloc delta and a count of element-decoder invocations. Binary inputs: seeded valid encodings, every truncation, 8/16/32-bit substitution of {0,1,2,3,±1,0x7f..,0xff..,2^28,…} at every (sampled above 40/120 bytes) offset, bit flips, splices, insert/delete, random strings 0–64 bytes; JSON: every node of every valid document replaced by every other JSON kind and by out-of-range/fractional/negative numbers and bad hex / numeric strings, every member removed, extra members; all x validation on/off. distinct_nontrivial counts distinct (family, target, validation, mutation kind, outcome class) tuples, outcome class = accepted | panic | root error message with numbers stripped – i.e. distinct decoder behaviours actually reached per target and mutation")
+	c.SetRule("each evaluation is one call of a decoder entry point (serix.Decode into one of ~55 registered destination types incl. ds.Set/SerializableOrderedMap.Decode; JSONDecode/MapDecode; 19 Deserializer primitives and chains of them; 10 stream Read* helpers; typeutils) on one input, in a GOMAXPROCS=1 child under ulimit -v, observed by recover, returned (n, err), MemStats.TotalAlloc delta and a count of element-decoder invocations. Binary inputs: seeded valid encodings, every truncation, 8/16/32-bit substitution of {0,1,2,3,±1,0x7f..,0xff..,2^28,…} at every (sampled above 40/120 bytes) offset, bit flips, splices, insert/delete, random strings 0–64 bytes; JSON: every node of every valid document replaced by every other JSON kind and by out-of-range/fractional/negative numbers and bad hex / numeric strings; every string node additionally by well-formed 0x-hex decoding to 0, 1, N-1, N+1, 2N, 1000 (and 3/5/9/31/33) bytes where N is the original decoded length, by numeric-string spellings (too many digits, leading zeros, signs, exponent, blanks, int64/uint64 borders), by hex-form ambiguities (no prefix, odd digits, upper case, 256/257-bit quantities) and, in the first document of each target, by 64 KiB strings (plain, digits, valid hex); every member removed, extra members; all x validation on/off. distinct_nontrivial counts distinct (family, target, validation, mutation kind, outcome class) tuples, outcome class = accepted | panic | root error message with numbers stripped – i.e. distinct decoder behaviours actually reached per target and mutation")
 	u := newUniverse()
 	bs := batchNames(u)
 	if only := os.Getenv("C02_ONLY"); only != "" { // debugging aid: restrict to batches with this prefix
@@ -522,6 +535,11 @@ func run(c *vf.Ctx) {
 	c.Require("calls:serix", c.Pick(60000, 1000000))
 	c.Require("calls:json", c.Pick(15000, 200000))
 	c.Require("calls:map", 3000)
+	c.Require("hexlen_mutants_tried", 3000)
+	c.Require("hexlen_mutants_accepted", 200)
+	c.Require("numstr_mutants_tried", 3000)
+	c.Require("hexform_mutants_tried", 2000)
+	c.Require("long_mutants_tried", 100)
 	c.Require("calls:prim", 5000)
 	c.Require("calls:stream", 3000)
 	c.Require("calls:util", 100)
